@@ -52,12 +52,25 @@ def encode_factor(f, frame_case, levels_override=None):
     if k == "num":
         v = numeric(frame_case, f["col"])
         return {"full": [(name, v)], "reduced": None, "kind": "numerical"}
+    if k == "py" and f["fn"] == "stack":
+        a, b = (numeric(frame_case, c) for c in f["cols"])
+        return {"full": [(f"{name}[0]", a), (f"{name}[1]", b)], "reduced": None, "kind": "numerical"}
     if k == "py":
         v = py_eval(f["fn"], [numeric(frame_case, c) for c in f["cols"]])
         return {"full": [(name, v)], "reduced": None, "kind": "numerical"}
     if k == "polyraw":
         v = numeric(frame_case, f["col"])
         return {"full": [(f"{name}[{d - 1}]", v**d) for d in range(1, f["deg"] + 1)], "reduced": None, "kind": "numerical"}
+    if k == "hashed":
+        from hashlib import md5
+
+        data = col_values(frame_case, f["col"])
+        L = f["levels"]
+        codes = [int(md5(str(v).encode()).hexdigest(), 16) % L for v in data]
+        I = np.zeros((len(data), L))
+        for i, c in enumerate(codes):
+            I[i, c] = 1.0
+        return {"full": [(f"{name}[{j}]", I[:, j]) for j in range(L)], "reduced": None, "kind": "categorical"}
     if k in ("cat", "C"):
         levels = levels_override if levels_override is not None else (list(f["levels"]) if f.get("levels") else levels_of(frame_case, f["col"]))
         data = col_values(frame_case, f["col"])
